@@ -124,7 +124,7 @@ comp = Component("client-peer-decoder-sessions",
                  "generated HTTP(S) configurations (random get/post/server programs with printable placements: header / parameter / "
                  "print terminations, static headers and parameters; uri-append excluded, see K1) x sessions of 1-8 actions (check-in "
                  "without task, check-in with a task, callback with arbitrary data, two callbacks) x key material {RSA private key, "
-                 "aes_rand, aes+hmac keys}: the decoder fed with the raw HTTP bytes of every message in order yields exactly the packets "
+                 "aes_rand, aes+hmac keys, RSA key with only one of the session keys, RSA key + aes_rand}: the decoder fed with the raw HTTP bytes of every message in order yields exactly the packets "
                  "sent (metadata only with the RSA key), and get_task returns the task the peer sent; 40 sessions quick / 1500 thorough")
 c_route = Component("unrelated-traffic-rejected", "requests with a different verb, a URI outside the configured prefixes, or the get URI "
                     "with the post verb raise ValueError in iter_recover_http / get_transform_for_http; 30 quick / 1000 thorough")
@@ -169,13 +169,16 @@ for sidx in range(N):
                     for _ in range(2 if a == "callback2" else 1):
                         cl.send_callback(rng.choice([BeaconCallback.CALLBACK_OUTPUT, BeaconCallback.CALLBACK_OUTPUT_OEM, BeaconCallback.CALLBACK_ERROR]), bytes(rng.randrange(256) for _ in range(rng.randrange(0, 60))))
             if ok:
-                for variant in ("rsa", "aes_rand", "keys"):
+                for variant in ("rsa", "aes_rand", "keys", "rsa+aes_key", "rsa+hmac_key", "rsa+aes_rand"):
                     kw = {"rsa": {"rsa_private_key": KEY}, "aes_rand": {"aes_rand": cl.aes_rand},
-                          "keys": {"aes_key": cl.aes_key, "hmac_key": cl.hmac_key}}[variant]
+                          "keys": {"aes_key": cl.aes_key, "hmac_key": cl.hmac_key},
+                          "rsa+aes_key": {"rsa_private_key": KEY, "aes_key": cl.aes_key},
+                          "rsa+hmac_key": {"rsa_private_key": KEY, "hmac_key": cl.hmac_key},
+                          "rsa+aes_rand": {"rsa_private_key": KEY, "aes_rand": cl.aes_rand}}[variant]
                     dec = C2Http(bc, **kw)
                     for n_, (raw, expect) in enumerate(peer.wire):
                         got = observed(list(dec.iter_recover_http(raw)))
-                        want = [e for e in expect if not (e[0] == "metadata" and variant != "rsa")]
+                        want = [e for e in expect if not (e[0] == "metadata" and not variant.startswith("rsa"))]
                         if want and want[0][0] == "metadata":
                             want = [("metadata", cl.beacon_id, cl.aes_rand)] + want[1:]
                         if got != want:
